@@ -4,6 +4,7 @@ import (
 	"fmt"
 	"go/token"
 	"go/types"
+	"sort"
 	"strings"
 
 	"golang.org/x/tools/go/ssa"
@@ -1188,10 +1189,40 @@ func (fc *FuncCtx) rangeNext(fr *Frame, st *State, x *ssa.Next) {
 }
 
 func (fc *FuncCtx) goStmt(fr *Frame, st *State, x *ssa.Go) {
-	// The spawned function is verified separately as a sequential function
-	// (if it has a contract); its effects on this frame are not modelled.
-	fc.note(fmt.Sprintf("go statement at %s: the goroutine body is checked as a separate sequential function; interleavings are not modelled", fc.p.pos(x.Pos())))
+	// The spawned function is verified separately as a sequential function (if it has a contract).
+	// For THIS frame its effects are arbitrary from the spawn on: every captured local it assigns and every
+	// heap array it may write is given an arbitrary value here, and again at every later sync.WaitGroup.Wait
+	// of the frame (the goroutine may still be running in between; interleavings are not modelled).
+	fc.note(fmt.Sprintf("go statement at %s: the goroutine body is checked as a separate sequential function; for the spawning function its effects are arbitrary (havocked at the spawn and at every Wait); interleavings are not modelled", fc.p.pos(x.Pos())))
 	fc.ghostAdd(st, "spawned", 1)
+	if mc, ok := x.Call.Value.(*ssa.MakeClosure); ok {
+		fr.spawned = append(fr.spawned, mc)
+		fc.havocClosure(fr, st, mc, "effects of the goroutine started at "+fc.p.pos(x.Pos())+" are havocked")
+	} else if callee := x.Call.StaticCallee(); callee != nil {
+		mi := fc.modOfFunc(callee, 1)
+		var hs []string
+		for k := range mi.heaps {
+			hs = append(hs, k)
+		}
+		sort.Strings(hs)
+		for _, k := range hs {
+			if strings.HasPrefix(k, "ghost:") || strings.HasPrefix(k, "FV:") {
+				continue
+			}
+			nh := Fresh(heapVarName(k)+".go", heapSort(k, fc.p))
+			fc.p.noteHeapVar(nh, k, st.alloc)
+			st.setH(k, nh)
+		}
+	} else {
+		unsupp("go statement with a dynamic callee at %s", fc.p.pos(x.Pos()))
+	}
+}
+
+// rehavocSpawned: at a synchronisation point the goroutines started by this frame may have run further
+func (fc *FuncCtx) rehavocSpawned(fr *Frame, st *State) {
+	for _, mc := range fr.spawned {
+		fc.havocClosure(fr, st, mc, "effects of the goroutines started by this function are havocked again at each WaitGroup.Wait")
+	}
 }
 
 // zeroStructRow: the fresh array `ref` of flat structs holds zero values (one element heap per field)
